@@ -41,6 +41,16 @@ package parse
 //@   ensures[F,C15] @len: result1 == runeLen(z.buf[z.pos+pos], len(z.buf)-1-z.pos-pos)
 //@   ensures[F,C15] @lsep: (result0 == 0x2028 || result0 == 0x2029) <==> lsep(z.buf[z.pos+pos], z.buf[z.pos+pos+1], z.buf[z.pos+pos+2], z.buf[z.pos+pos+3], result1)
 
+// the value is the UTF-8 decoding of the bytes it covers (payload bits of the lead byte, then six bits per continuation byte)
+//@   ensures[F,C12] @value1: result1 == 1 ==> result0 == z.buf[z.pos+pos]
+//@   ensures[F,C12] @value2: result1 == 2 ==> result0 == (z.buf[z.pos+pos] % 32) * 64 + z.buf[z.pos+pos+1] % 64
+//@   ensures[F,C12] @value3: result1 == 3 ==> result0 == (z.buf[z.pos+pos] % 16) * 4096 + (z.buf[z.pos+pos+1] % 64) * 64 + z.buf[z.pos+pos+2] % 64
+//@   ensures[F,C12] @value4: result1 == 4 ==> result0 == (z.buf[z.pos+pos] % 8) * 262144 + (z.buf[z.pos+pos+1] % 64) * 4096 + (z.buf[z.pos+pos+2] % 64) * 64 + z.buf[z.pos+pos+3] % 64
+// Restore gives the borrowed byte back once: afterwards the Input holds no way to write the caller's memory again
+//@ func Input.Restore
+//@   requires[S] z != nil
+//@   ensures[F,C12] @once: z.restore == nil
+
 //@ func Input.MoveRune
 //@   requires[S] bufInv(z)
 //@   requires[S] z.pos < len(z.buf)-1
@@ -532,6 +542,10 @@ package parse
 //@ func BinaryReader.ReadByte
 //@   preserves[S] brInv(r)
 //@   requires[S] smallInt(r.pos)
+// a failing ReadByte leaves the reader in the failed state (Err() reports it) and never clears an earlier error
+//@   ensures[F,C19] @sticky: old(r.err) != nil ==> r.err == old(r.err)
+//@   ensures[F,C19] @error-recorded: result1 != nil ==> r.err != nil
+//@   ensures[F,C19] @value: result1 == nil ==> r.pos == old(r.pos) + 1 && result0 == content(r.f, old(r.pos))
 // unsigned value of the N bytes at stream offset p in the reader's byte order, and its two's-complement reading
 //@ pred uBE16(r, p) := content(r.f, p)*256 + content(r.f, p+1)
 //@ pred uLE16(r, p) := content(r.f, p+1)*256 + content(r.f, p)
